@@ -388,6 +388,156 @@ func runC12(r *Run) {
 		sort.Strings(extra)
 		r.check(len(extra) == 0 && len(writers) >= 3, "C12.R4", "writers|"+pricesFam, "-", "the price history has the known writers only", "other functions write the price family: "+strings.Join(extra, ","))
 	}
+	// a feeder may stop only outside a round's window, and "inside the window" means the same in the
+	// validation as in the round preparation: (block - StartBaseBlock) mod Interval < MaxNonce
+	{
+		pv := w.View("x/oracle/types", "Params.Validate")
+		rv := w.View("x/oracle/keeper/aggregator", "AggregatorContext.PrepareRoundEndBlock")
+		if pv == nil || rv == nil {
+			r.bad("C12.R4", "anchor|endblock-window", "-", "anchor", "Params.Validate or PrepareRoundEndBlock not found")
+		} else {
+			var feederLoop ast.Node = pv.Decl.Body
+			var loopKeyObj types.Object
+			ast.Inspect(pv.Decl.Body, func(n ast.Node) bool {
+				if rs, isR := n.(*ast.RangeStmt); isR && lastField(rs.X) == "TokenFeeders" {
+					feederLoop = rs.Body
+					if rs.Key != nil {
+						loopKeyObj = pv.objOf(rs.Key)
+					}
+				}
+				return true
+			})
+			okV := pv.rejectsWhen(feederLoop, func(f Fact) bool {
+				c, isC := factCmp(f)
+				if !isC || c.Op != "<" || !strings.Contains(exprString(c.R), "MaxNonce") {
+					return false
+				}
+				a, b, m, ok := windowOffset(pv, c.L)
+				return ok && lastField(a) == "EndBlock" && b == "StartBaseBlock" && m == "Interval"
+			}, func(f Fact) bool {
+				c, isC := factCmp(f)
+				if isC && c.Op == ">" && lastField(c.L) == "EndBlock" && exprString(c.R) == "0" {
+					return true
+				}
+				// the reserved feeder id 0 is skipped
+				return isC && c.Op == "!=" && loopKeyObj != nil && pv.objOf(c.L) == loopKeyObj && exprString(c.R) == "0"
+			})
+			okP := false
+			blockP := paramName(rv, 0)
+			ast.Inspect(rv.Decl.Body, func(n ast.Node) bool {
+				ifs, isIf := n.(*ast.IfStmt)
+				if !isIf {
+					return true
+				}
+				var fs []Fact
+				decompose(ifs.Cond, true, ifs, &fs)
+				for _, f := range mirrorFacts(fs) {
+					c, isC := factCmp(f)
+					if !isC || c.Op != ">=" || !strings.Contains(exprString(c.R), "MaxNonce") {
+						continue
+					}
+					if a, b, m, ok := windowOffset(rv, c.L); ok && exprString(a) == blockP && b == "StartBaseBlock" && m == "Interval" {
+						okP = true
+					}
+				}
+				return true
+			})
+			r.check(okV, "C12.R4", "feeder-stop|outside-window", pv.pos(pv.Decl), "a feeder whose EndBlock lies inside a round's window ((EndBlock - StartBaseBlock) mod Interval < MaxNonce) is rejected", "Params.Validate does not reject exactly the EndBlocks whose offset (EndBlock - StartBaseBlock) mod Interval is below MaxNonce: a feeder stopping on a round boundary leaves a round that is counted but never opened, and the resumed feeder's round ids no longer match the store")
+			r.check(okP, "C12.R4", "feeder-stop|same-window-as-preparation", rv.pos(rv.Decl), "the round preparation measures the window with the same offset, (block - StartBaseBlock) mod Interval >= MaxNonce meaning closed", "PrepareRoundEndBlock no longer compares (block - StartBaseBlock) mod Interval with MaxNonce")
+		}
+	}
+	// a feeder reaches the store only through Params.Validate (interval >= 2 x MaxNonce, stop outside a window,
+	// start round ids that continue the stored ones): every function that builds or changes a feeder and stores
+	// the params validates in between
+	{
+		n := 0
+		for _, fv := range w.allViews() {
+			if !strings.HasPrefix(fv.ID(), "x/oracle/keeper") || fv.Decl.Name.Name == "SetParams" || fv.Decl.Name.Name == "InitGenesis" {
+				continue
+			}
+			var first ast.Node
+			for _, cl := range fv.compositeLits(fv.Decl.Body, "TokenFeeder") {
+				if first == nil || cl.Pos() < first.Pos() {
+					first = cl
+				}
+			}
+			for _, c := range fv.CallsNamed("UpdateTokenFeeder") {
+				if first == nil || c.Pos() < first.Pos() {
+					first = c
+				}
+			}
+			if first == nil {
+				continue
+			}
+			for _, c := range fv.CallsNamed("SetParams") {
+				if c.Pos() < first.Pos() {
+					continue
+				}
+				n++
+				validated := false
+				for _, f := range fv.FactsAt(c, false) {
+					if o := fv.outcome(f); o != nil && o.Callee.Name() == "Validate" && o.Success && o.Call.Pos() > first.Pos() {
+						validated = true
+					}
+				}
+				r.check(validated, "C12.R4", "feeder|validated-before-stored|"+fv.ID(), fv.pos(c), "a new or changed feeder is stored only after Params.Validate accepted the params", fv.ID()+" stores params with a feeder it built or changed without validating them: an interval below twice the round window makes rounds overlap (gaps in the stored round ids) and blocks every later params update")
+			}
+		}
+		if n < 2 {
+			r.bad("C12.R4", "feeder|validated-before-stored|none", "-", "feeder writers present", "fewer than two feeder-writing functions found in x/oracle/keeper")
+		}
+	}
+	// a validator is identified by its decoded address wherever submissions are de-duplicated or weighed: a
+	// map keyed by the creator string as written would see the upper-case bech32 spelling as another validator
+	{
+		n := 0
+		for _, fv := range w.allViews() {
+			if !strings.HasPrefix(fv.ID(), "x/oracle/keeper/aggregator.") {
+				continue
+			}
+			ast.Inspect(fv.Decl.Body, func(nd ast.Node) bool {
+				ix, ok := nd.(*ast.IndexExpr)
+				if !ok {
+					return true
+				}
+				if _, isMap := fv.Info.TypeOf(ix.X).Underlying().(*types.Map); !isMap {
+					return true
+				}
+				raw, decoded := false, false
+				var visit func(e ast.Expr, depth int)
+				visit = func(e ast.Expr, depth int) {
+					ast.Inspect(e, func(m ast.Node) bool {
+						switch x := m.(type) {
+						case *ast.SelectorExpr:
+							if x.Sel.Name == "Creator" {
+								raw = true
+							}
+						case *ast.CallExpr:
+							if strings.HasSuffix(exprString(x.Fun), "ConsAddress") {
+								decoded = true
+								return false
+							}
+						case *ast.Ident:
+							if o, isVar := fv.objOf(x).(*types.Var); isVar && !o.IsField() && depth < 4 {
+								for _, d := range fv.defsOf(o) {
+									visit(d, depth+1)
+								}
+							}
+						}
+						return true
+					})
+				}
+				visit(ix.Index, 0)
+				if !raw {
+					return true
+				}
+				n++
+				r.check(decoded, "C12.R3", "validator-identity|"+fv.ID()+"|"+exprString(ix), fv.pos(ix), "the per-validator record is keyed by the decoded (consensus) address", exprString(ix)+" is keyed by the creator string as written: the all-upper-case bech32 spelling of the same address is a second key, so the validator passes the de-duplication twice and its power is added twice")
+				return true
+			})
+		}
+		r.check(n >= 1, "C12.R3", "validator-identity|matcher", "-", fmt.Sprintf("%d per-validator maps keyed from the creator field found", n), "no map keyed from the creator field found in the aggregator package (matcher lost its anchor)")
+	}
 	// ---- R5
 	if v := need("x/oracle", "AppModule.EndBlock"); v != nil {
 		seals := v.CallsNamed("SealRound")
@@ -497,6 +647,99 @@ func runC12(r *Run) {
 		r.check(failedObj != nil && okF && nF >= 1, "C12.R5", "SealRound|failed-are-token-ids", v.pos(v.Decl), "the failed list carries token ids (what GrowRoundID expects)", "SealRound appends something other than feeder.TokenID to the failed list: the wrong token's round would be grown")
 		r.check(sealedObj != nil && okS && nS >= 1, "C12.R5", "SealRound|sealed-are-feeder-ids", v.pos(v.Decl), "the sealed list carries feeder ids (what the nonce store expects)", "SealRound appends something other than the feeder id to the sealed list")
 	}
+	// a round sealed because the validator set changed (or its window ended) is kept as CLOSED: only an
+	// expired feeder's round is forgotten. A deleted round would be re-created as open by PrepareRoundEndBlock
+	// in the same block and closed a second time.
+	if v := w.View("x/oracle/keeper/aggregator", "AggregatorContext.SealRound"); v != nil {
+		n, okDel := 0, true
+		for _, c := range allCalls(v.Decl.Body) {
+			if exprString(c.Fun) != "delete" || len(c.Args) != 2 || lastField(c.Args[0]) != "rounds" {
+				continue
+			}
+			n++
+			var ifs *ast.IfStmt
+			for p := v.parent(c); p != nil; p = v.parent(p) {
+				if x, ok := p.(*ast.IfStmt); ok {
+					ifs = x
+					break
+				}
+			}
+			good := false
+			if ifs != nil {
+				// the facts the innermost `if` contributes at the delete: exactly "the feeder expired"
+				var own []Fact
+				for _, f := range v.factsAt(c, false) {
+					if f.At == ast.Node(ifs) {
+						own = append(own, f)
+					}
+				}
+				if len(own) == 1 && own[0].Truth {
+					for _, d := range v.resolveDefs(own[0].Atom, 0) {
+						mentionsEnd, other := false, false
+						ast.Inspect(d, func(m ast.Node) bool {
+							if sel, ok := m.(*ast.SelectorExpr); ok && sel.Sel.Name == "EndBlock" {
+								mentionsEnd = true
+							}
+							if id, ok := m.(*ast.Ident); ok && v.objOf(id) != nil && isParamObj(v, v.objOf(id)) {
+								if b, isB := v.objOf(id).Type().Underlying().(*types.Basic); isB && b.Kind() == types.Bool {
+									other = true
+								}
+							}
+							return true
+						})
+						good = mentionsEnd && !other
+					}
+				}
+				// the other arm closes the round
+				var otherArm *ast.BlockStmt
+				if c.Pos() > ifs.Body.Pos() && c.End() < ifs.Body.End() {
+					otherArm, _ = ifs.Else.(*ast.BlockStmt)
+				} else {
+					otherArm = ifs.Body
+				}
+				closes := false
+				if otherArm != nil {
+					for _, st := range otherArm.List {
+						if as, ok := st.(*ast.AssignStmt); ok && len(as.Lhs) == 1 && lastField(as.Lhs[0]) == "status" && strings.Contains(exprString(as.Rhs[0]), "Closed") {
+							closes = true
+						}
+					}
+				}
+				good = good && closes
+			}
+			if !good {
+				okDel = false
+			}
+		}
+		r.check(okDel && n >= 1, "C12.R5", "SealRound|closed-not-deleted", v.pos(v.Decl), "a sealed round is deleted only when its feeder expired; otherwise it is marked closed", "SealRound deletes a round under a condition other than the feeder's expiry (or does not mark the others closed): the round is re-created open in the same block and closed twice")
+	}
+	// the aggregator is given the full validator set read back from the cache, not the update delta
+	if v := w.View("x/oracle", "AppModule.EndBlock"); v != nil {
+		ok, n := true, 0
+		for _, c := range v.CallsNamed("SetValidatorPowers") {
+			n++
+			arg := v.objOf(c.Args[0])
+			fromCache, isDelta := false, false
+			for _, g := range v.CallsNamed("GetCache") {
+				if g.Pos() < c.Pos() && len(g.Args) == 1 {
+					if iv, isCall := stripParens(g.Args[0]).(*ast.CallExpr); isCall && len(iv.Args) == 1 && arg != nil && v.objOf(iv.Args[0]) == arg {
+						fromCache = true
+					}
+				}
+			}
+			for _, a := range v.CallsNamed("AddCache") {
+				if len(a.Args) == 1 {
+					if iv, isCall := stripParens(a.Args[0]).(*ast.CallExpr); isCall && len(iv.Args) == 1 && arg != nil && v.objOf(iv.Args[0]) == arg {
+						isDelta = true
+					}
+				}
+			}
+			if !fromCache || isDelta {
+				ok = false
+			}
+		}
+		r.check(ok && n >= 1, "C12.R8", "validators|full-set-from-cache", v.pos(v.Decl), "the aggregator's validator set is the merged set read back from the cache", "EndBlock hands SetValidatorPowers something other than the map filled by GetCache (the update delta): unchanged validators disappear and the total power is the delta's sum")
+	}
 	// ---- R6
 	if v := w.View("x/oracle/keeper", "Keeper.AppendPriceTR"); v != nil {
 		var del *ast.CallExpr
@@ -569,4 +812,23 @@ func mentionsMaxSize(v *FnView, e ast.Expr) bool {
 		}
 	}
 	return false
+}
+
+// windowOffset: e (through single-definition locals) is (a - b.<field>) % c.<field>; returns a, the names
+// of the two fields.
+func windowOffset(v *FnView, e ast.Expr) (a ast.Expr, sub, mod string, ok bool) {
+	for _, d := range v.resolveDefs(e, 0) {
+		rem, isB := stripParens(d).(*ast.BinaryExpr)
+		if !isB || rem.Op != token.REM {
+			continue
+		}
+		for _, x := range v.resolveDefs(stripParens(rem.X), 0) {
+			df, isD := stripParens(x).(*ast.BinaryExpr)
+			if !isD || df.Op != token.SUB {
+				continue
+			}
+			return stripParens(df.X), lastField(df.Y), lastField(rem.Y), true
+		}
+	}
+	return nil, "", "", false
 }
